@@ -7,7 +7,8 @@ RULE = ("digit iterators and from_base_le/be over bases {0,1,2,3,7,8,10,16,36,37
         "one digit / one unit, with a digit = b, with leading and trailing zeros; formatting over 6 traits x 8 flag sets x "
         "7 fill/alignment forms x widths {none,1,20,len+-1} (x?/X? excluded: not in the property's flag list), each also "
         "applied to u128 (the reference); parsing over radices 0..=65 x {prefixes} x digit classes (valid lower/upper/mixed, "
-        "with _, digit = radix, digit = radix+1, non-alphabet, non-ASCII at offsets 1,2, base-64 alphabets) x {fits, "
+        "with _, digit = radix, digit = radix+1, non-alphabet, non-ASCII at offsets 1,2, every ASCII code point 0..127 and Unicode digit "
+        "look-alikes alone and inside a numeral (radices 2, 10, 16, 36, 64 at 3 widths), base-64 alphabets) x {fits, "
         "=2^BITS-1, =2^BITS}; a case is one distinct call")
 
 BASES = [2, 3, 7, 8, 10, 16, 36, 37, 64, 255, 256, 10**4, 10**19, 2**32, 2**63, 2**64 - 1]
@@ -142,6 +143,11 @@ def scenarios(tier, rng):
                 strs.append("+" + t)
                 strs.append("-" + t)
             strs += ["", "_", "z", "Z", "zz", "az09AZ", "+/", "-_", ",", "=", "g", "G"]
+            # the whole ASCII table (control characters included) and a few digit look-alikes, alone and inside a numeral: the
+            # alphabet must be EXACTLY the documented one (a case fold by `| 0x20` would map U+0010..U+0019 onto '0'..'9')
+            if bits in (8, 64, 256) and r in (10, 16, 36, 64, 2):
+                for cp in list(range(0, 128)) + [0x80, 0xb2, 0xb9, 0x660, 0x6f0, 0x966, 0xff10, 0xff21, 0x1d7ce]:
+                    strs += [chr(cp), "1" + chr(cp) + "0"]
             for s in dict.fromkeys(strs):
                 sc.append({"g": "text", "op": "parse", "bits": bits, "s": [ord(c) for c in s], "radix": tobytes(r)})
     return {"ux_text": sc}
